@@ -187,6 +187,11 @@ func genProg(t *rapid.T, depth int, wantInt bool) *ref.Node {
 	case 0, 1, 2: // assignment
 		return paren(bin("=", idn(rapid.SampledFrom(locals).Draw(t, "tgt")), sub(wantInt)))
 	case 3: // comma
+		if !wantInt && rapid.IntRange(0, 2).Draw(t, "logical") == 0 {
+			// a logical operator whose left operand may bind or record and whose right operand is a plain leaf:
+			// the left operand is evaluated exactly once, whichever way the operator goes
+			return paren(bin(rapid.SampledFrom([]string{"&&", "||", "??"}).Draw(t, "lop"), sub(false), genProg(t, 0, false)))
+		}
 		return paren(bin(",", sub(false), sub(wantInt)))
 	case 4: // array
 		n := rapid.IntRange(0, 3).Draw(t, "nel")
@@ -287,7 +292,7 @@ func progNontrivial(c progCase) bool {
 
 // TestC07Model: histories of 1-4 evaluations against the store-passing model.
 func TestC07Model(t *testing.T) {
-	run := h.Begin("C07", "model", "rapid: histories of 1-4 programs evaluated by one runner; programs mix '$n = e', reads, forbidden targets (x = e, $a.k = e, ($a) = e, 1 = e, rec() = e, newname = e), ',', arrays, rec(...) calls (also rec([..]...) and recf(a, [..]...) with a fixed first parameter), ?: with literal or comparison conditions, parentheses and integer '+' over locals $a $b $c and data names x y m s d; oracle: a store-passing reference evaluator (result value, final value of every $ key in the caller's map, ordered rec trace = left-to-right evaluation, error iff a forbidden assignment is evaluated) and a deep snapshot of the caller's data taken before each evaluation (no non-$ entry added/removed/changed, no reachable map/slice/number mutated); non-trivial: an assignment that is read afterwards, a re-assignment or a forbidden target; distinct by history text")
+	run := h.Begin("C07", "model", "rapid: histories of 1-4 programs evaluated by one runner; programs mix '$n = e', reads, forbidden targets (x = e, $a.k = e, ($a) = e, 1 = e, rec() = e, newname = e), ',', arrays, rec(...) calls (also rec([..]...) and recf(a, [..]...) with a fixed first parameter), ?: with literal or comparison conditions, && || ?? with a plain leaf on the right, parentheses and integer '+' over locals $a $b $c and data names x y m s d; oracle: a store-passing reference evaluator (result value, final value of every $ key in the caller's map, ordered rec trace = left-to-right evaluation, error iff a forbidden assignment is evaluated) and a deep snapshot of the caller's data taken before each evaluation (no non-$ entry added/removed/changed, no reachable map/slice/number mutated); non-trivial: an assignment that is read afterwards, a re-assignment or a forbidden target; distinct by history text")
 	defer run.End(t)
 	h.RapidSetup(h.N(8000, 2000000), "c07model")
 	rapid.Check(t, func(rt *rapid.T) {
